@@ -30,6 +30,8 @@ CONSTANTS Fork,        \* index of the hardfork, numbered like revm's SpecId (FR
           TxGas,       \* gas limits a transaction may use
           TxTargets,   \* call targets of transactions (0 = create transaction)
           BaseFee, GasPrices,
+          SetupPlan,   \* <<>> = free setup; else a sequence of [c |-> contract, kinds |-> families]: step i
+                       \* appends one snippet of those families to that contract (exhaustive product)
           TxVariety,   \* FALSE: transactions carry no value, no data, no access list
           StepBound    \* safety bound on interpreter steps per transaction
 
@@ -79,6 +81,22 @@ MemWrite(mem, off, bs) == [i \in 1..Len(mem) |-> IF i > off /\ i <= off + Len(bs
 Slice0(src, off, len) == [i \in 1..len |-> IF off + i <= Len(src) THEN src[off + i] ELSE 0]
 
 -----------------------------------------------------------------------------
+(* ---------------------------------------------------------------- small-number helpers *)
+RECURSIVE Pow2(_)
+Pow2(k) == IF k = 0 THEN 1 ELSE 2 * Pow2(k - 1)
+RECURSIVE Bitwise(_, _, _)
+Bitwise(op, a, b) ==                    \* 22 AND, 23 OR, 24 XOR on naturals
+    IF a = 0 /\ b = 0 THEN 0
+    ELSE LET x == a % 2  y == b % 2
+             bit == IF op = 22 THEN x * y ELSE IF op = 23 THEN (IF x + y > 0 THEN 1 ELSE 0) ELSE (x + y) % 2
+         IN bit + 2 * Bitwise(op, a \div 2, b \div 2)
+\* block environment the harness sets
+BlockTime == 1700000000 - TOK           \* 700000000: kept below the token range
+BlockNumber == 100
+BlockGasLimit == 30000000
+ChainId == 1
+
+-----------------------------------------------------------------------------
 (* ---------------------------------------------------------------- jump destinations *)
 RECURSIVE Dests(_, _)
 Dests(code, pc) ==          \* pc is 0-based
@@ -113,6 +131,9 @@ SStoreGas(orig, cur, new, cold) ==
                          + (IF new = orig THEN (IF orig = 0 THEN 20000 - sl ELSE reset - sl) ELSE 0)
          IN <<base + (IF Has(BERLIN) /\ cold THEN 2100 ELSE 0), ref>>
 
+\* tx.price is the price cap (gas price of a legacy transaction, max fee of a type-2 one);
+\* tx.prio < 0 marks a legacy transaction
+EffPrice(tx) == IF tx.prio < 0 THEN tx.price ELSE Min(tx.price, BaseFee + tx.prio)
 ZeroBytes(bs) == Cardinality({i \in 1..Len(bs) : bs[i] = 0})
 Intrinsic(tx) ==
     21000 + 4 * ZeroBytes(tx.data) + (IF Has(ISTANBUL) THEN 16 ELSE 68) * (Len(tx.data) - ZeroBytes(tx.data))
@@ -180,7 +201,7 @@ FinishTx(mm, status, out, gasLeft, refund) ==
         ref == IF status = "ok" THEN Min(Max(refund, 0), spent \div q) ELSE 0
         used0 == spent - ref
         used == Max(used0, FloorGas(tx))
-        price == tx.price
+        price == EffPrice(tx)
         tip == IF Has(LONDON) THEN price - BaseFee ELSE price
         w1 == [mm.world EXCEPT ![Sender].bal = @ + (tx.gas - used) * price]
         w2 == [w1 EXCEPT ![Coinbase].bal = @ + used * tip, ![Coinbase].ex = TRUE]
@@ -366,6 +387,19 @@ Step(mm) ==
                    ELSE IF n >= 2 /\ s0 + s1 >= TOK THEN Cut(mm) ELSE Simple(2, <<IF n >= 2 THEN s0 + s1 ELSE 0>>, 3)
       [] op = 3 -> IF n >= 2 /\ ~NumOk(2) THEN Cut(mm)                                          \* SUB
                    ELSE IF n >= 2 /\ s0 < s1 THEN Cut(mm) ELSE Simple(2, <<IF n >= 2 THEN s0 - s1 ELSE 0>>, 3)
+      [] op = 2 -> IF n >= 2 /\ ~NumOk(2) THEN Cut(mm)                                          \* MUL
+                   ELSE IF n >= 2 /\ s0 # 0 /\ s1 >= TOK \div s0 THEN Cut(mm) ELSE Simple(2, <<IF n >= 2 THEN s0 * s1 ELSE 0>>, 5)
+      [] op = 4 -> IF n >= 2 /\ ~NumOk(2) THEN Cut(mm)                                          \* DIV (x / 0 = 0)
+                   ELSE Simple(2, <<IF n >= 2 /\ s1 # 0 THEN s0 \div s1 ELSE 0>>, 5)
+      [] op = 6 -> IF n >= 2 /\ ~NumOk(2) THEN Cut(mm)                                          \* MOD (x % 0 = 0)
+                   ELSE Simple(2, <<IF n >= 2 /\ s1 # 0 THEN s0 % s1 ELSE 0>>, 5)
+      [] op \in {22, 23, 24} -> IF n >= 2 /\ ~NumOk(2) THEN Cut(mm)                             \* AND OR XOR
+                   ELSE Simple(2, <<IF n >= 2 THEN Bitwise(op, s0, s1) ELSE 0>>, 3)
+      [] op \in {27, 28} ->                                                                     \* SHL SHR (shift on top)
+                   IF ~Has(CONSTANTINOPLE) THEN Halt(mm)
+                   ELSE IF n >= 2 /\ ~NumOk(2) THEN Cut(mm)
+                   ELSE IF n >= 2 /\ op = 27 /\ (s0 > 30 \/ s1 * Pow2(s0) >= TOK) THEN Cut(mm)
+                   ELSE Simple(2, <<IF n < 2 THEN 0 ELSE IF op = 27 THEN s1 * Pow2(s0) ELSE IF s0 > 30 THEN 0 ELSE s1 \div Pow2(s0)>>, 3)
       [] op = 16 -> IF n >= 2 /\ ~NumOk(2) THEN Cut(mm) ELSE Simple(2, <<IF n >= 2 /\ s0 < s1 THEN 1 ELSE 0>>, 3)   \* LT
       [] op = 17 -> IF n >= 2 /\ ~NumOk(2) THEN Cut(mm) ELSE Simple(2, <<IF n >= 2 /\ s0 > s1 THEN 1 ELSE 0>>, 3)   \* GT
       [] op = 20 -> Simple(2, <<IF n >= 2 /\ s0 = s1 THEN 1 ELSE 0>>, 3)                         \* EQ
@@ -392,12 +426,32 @@ Step(mm) ==
                  ELSE IF Far(s0, s2) \/ s1 > MEMLIM THEN (IF f.gas < FarCost(f.mem) THEN Halt(mm) ELSE Cut(mm))
                  ELSE IF f.gas < c THEN Halt(mm)
                  ELSE Go(mm, 3, <<>>, c, [f EXCEPT !.mem = MemWrite(MemGrow(f.mem, s0, s2), s0, Slice0(src, s1, s2))])
-      [] op = 58 -> Simple(0, <<mm.tx.price>>, 2)                                                \* GASPRICE
+      [] op = 58 -> Simple(0, <<EffPrice(mm.tx)>>, 2)                                            \* GASPRICE
       [] op = 59 ->                                                                              \* EXTCODESIZE
             IF n < 1 THEN Halt(mm) ELSE IF s0 \notin AddrU THEN Cut(mm)
             ELSE LET c == Access(Warm(mm, s0), G_extcode) IN
                  IF f.gas < c THEN Halt(mm) ELSE Go([mm EXCEPT !.accA = @ \cup {s0}], 1, <<Len(w[s0].code)>>, c, f)
+      [] op = 60 ->                                                  \* EXTCODECOPY (addr, dst, src, len)
+            IF n < 4 THEN Halt(mm) ELSE IF s0 \notin AddrU \/ ~InDom(s1) \/ ~InDom(s2) \/ ~InDom(s3) THEN Cut(mm)
+            ELSE LET c == IF Far(s1, s3) THEN 0 ELSE Access(Warm(mm, s0), G_extcode) + 3 * Words(s3) + MemCost(f.mem, s1, s3) IN
+                 IF Far(s1, s3) \/ s2 > MEMLIM THEN (IF f.gas < FarCost(f.mem) THEN Halt(mm) ELSE Cut(mm))
+                 ELSE IF f.gas < c THEN Halt(mm)
+                 ELSE Go([mm EXCEPT !.accA = @ \cup {s0}], 4, <<>>, c,
+                         [f EXCEPT !.mem = MemWrite(MemGrow(f.mem, s1, s3), s1, Slice0(w[s0].code, s2, s3))])
       [] op = 61 -> IF ~Has(BYZANTIUM) THEN Halt(mm) ELSE Simple(0, <<Len(f.rdata)>>, 2)         \* RETURNDATASIZE
+      [] op = 63 ->                                             \* EXTCODEHASH: zero for a dead account, else a hash (not modelled)
+            IF ~Has(CONSTANTINOPLE) THEN Halt(mm)
+            ELSE IF n < 1 THEN Halt(mm) ELSE IF s0 \notin AddrU THEN Cut(mm)
+            ELSE LET c == Access(Warm(mm, s0), G_exthash) IN
+                 IF f.gas < c THEN Halt(mm)
+                 ELSE IF ~(~w[s0].ex \/ EmptyAcct(w[s0])) THEN Cut(mm)
+                 ELSE Go([mm EXCEPT !.accA = @ \cup {s0}], 1, <<0>>, c, f)
+      [] op = 65 -> Simple(0, <<Coinbase>>, 2)                                                   \* COINBASE
+      [] op = 66 -> Simple(0, <<BlockTime>>, 2)                                                  \* TIMESTAMP
+      [] op = 67 -> Simple(0, <<BlockNumber>>, 2)                                                \* NUMBER
+      [] op = 69 -> Simple(0, <<BlockGasLimit>>, 2)                                              \* GASLIMIT
+      [] op = 70 -> IF ~Has(ISTANBUL) THEN Halt(mm) ELSE Simple(0, <<ChainId>>, 2)               \* CHAINID
+      [] op = 72 -> IF ~Has(LONDON) THEN Halt(mm) ELSE Simple(0, <<BaseFee>>, 2)                 \* BASEFEE
       [] op = 71 -> IF ~Has(ISTANBUL) THEN Halt(mm) ELSE Simple(0, <<w[self].bal>>, 5)           \* SELFBALANCE
       [] op = 80 -> Simple(1, <<>>, 2)                                                           \* POP
       [] op = 81 ->                                                                              \* MLOAD
@@ -576,11 +630,12 @@ ValidTx(mm, tx) ==
     /\ tx.gas >= Max(Intrinsic(tx), FloorGas(tx))
     /\ mm.world[Sender].bal >= tx.gas * tx.price + tx.value
     /\ Has(LONDON) => tx.price >= BaseFee
+    /\ tx.prio >= 0 => (Has(LONDON) /\ tx.prio <= tx.price)
     /\ Has(SHANGHAI) /\ tx.to = 0 => Len(tx.data) <= 49152
     /\ Len(tx.al) > 0 => Has(BERLIN)
 
 StartTx(mm, tx) ==
-    LET w1 == [mm.world EXCEPT ![Sender].bal = @ - tx.gas * tx.price,
+    LET w1 == [mm.world EXCEPT ![Sender].bal = @ - tx.gas * EffPrice(tx),
                                ![Sender].nonce = IF tx.to # 0 THEN @ + 1 ELSE @]
         gas == tx.gas - Intrinsic(tx)
         m1 == [mm EXCEPT !.world = w1, !.orig = w1, !.tx = tx, !.ph = "run", !.steps = 0,
@@ -627,12 +682,63 @@ SnipsOf(K) ==
           THEN {<<x, 80>> : x \in {48, 50, 51, 52, 54, 56, 58, 61, 71, 88, 90, 95}}
                \cup {P(a) \o <<x, 80>> : a \in Targets, x \in {49, 59}}
                \cup {P(0) \o <<53, 80>>, <<52>> \o P(2) \o <<85>>, <<51>> \o P(2) \o <<85>>} ELSE {})
+    \cup (IF "arith" \in K
+          THEN {P(a) \o P(b) \o <<x>> \o P(2) \o <<85>> : a \in {0, 3, 300}, b \in {0, 2, 7}, x \in {1, 2, 3, 4, 6, 16, 17, 20, 22, 23, 24, 27, 28}}
+               \cup {P(a) \o <<21>> \o P(2) \o <<85>> : a \in {0, 5}}
+          ELSE {})
+    \cup (IF "env2" \in K
+          THEN {<<x>> \o P(2) \o <<85>> : x \in {58, 65, 66, 67, 69, 70, 72}}
+               \cup {P(a) \o <<63>> \o P(2) \o <<85>> : a \in {172, 173}}
+               \cup {P(3) \o P(0) \o P(1) \o P(a) \o <<60>> : a \in Contracts}
+          ELSE {})
     \cup (IF "jump" \in K
           THEN {<<88, 96, 5, 1, 86, 91>>, <<96, 1, 88, 96, 5, 1, 87, 91>>, <<96, 0, 88, 96, 5, 1, 87, 91>>, P(1) \o <<86>>} ELSE {})
     \cup (IF "call" \in K
           THEN {P(ol) \o P(0) \o P(il) \o P(0) \o (IF op \in {241, 242} THEN P(v) ELSE <<>>) \o P(t) \o P(g) \o <<op>> \o a :
                   op \in {241, 242, 244, 250}, t \in Targets, v \in {0, 1}, g \in {0, 700, 40000}, il \in {0, 4}, ol \in {0, 32}, a \in After}
           ELSE {})
+    \cup (IF "callS" \in K
+          THEN {P(32) \o P(0) \o P(0) \o P(0) \o (IF op \in {241, 242} THEN P(v) ELSE <<>>) \o P(t) \o P(g) \o <<op>> \o P(3) \o <<85>> :
+                  op \in {241, 242, 244, 250}, t \in {194, 195, 171, 172, 4} \cap (AddrU \cup {4}), v \in {0, 1}, g \in {700, 40000}}
+          ELSE {})
+    \cup (IF "createS" \in K
+          THEN {Poke(ic, 1) \o (IF op = 245 THEN P(0) ELSE <<>>) \o P(Len(ic)) \o P(0) \o P(v) \o <<op>> \o P(3) \o <<85>> :
+                  ic \in InitCodes, op \in {240, 245}, v \in {0, 1}}
+          ELSE {})
+    \* bodies of a callee: write something and return / revert / halt / self-destruct
+    \cup (IF "body" \in K
+          THEN {P(1) \o P(0) \o <<85>> \o P(32) \o P(0) \o <<243>>, P(1) \o P(0) \o <<85>> \o P(0) \o P(0) \o <<253>>,
+                P(1) \o P(0) \o <<85, 254>>, P(171) \o <<255>>, <<>>}
+          ELSE {})
+    \* every state-changing instruction once (used below STATICCALL chains)
+    \cup (IF "write" \in K
+          THEN {P(1) \o P(0) \o <<85>>, P(1) \o P(0) \o <<93>>, P(0) \o P(0) \o <<160>>, P(7) \o P(0) \o P(0) \o <<161>>,
+                P(8) \o P(7) \o P(0) \o P(0) \o <<162>>, P(0) \o P(0) \o P(0) \o <<240, 80>>, P(0) \o P(0) \o P(0) \o P(0) \o <<245, 80>>,
+                P(171) \o <<255>>, P(0) \o P(0) \o P(0) \o P(0) \o P(1) \o P(171) \o P(0) \o <<241, 80>>,
+                P(0) \o P(0) \o P(0) \o P(0) \o P(0) \o P(171) \o P(0) \o <<241, 80>>,
+                P(0) \o <<84, 80>>, P(0) \o <<92, 80>>}
+          ELSE {})
+    \* forward to the next contract with each call kind, then store the result
+    \cup (IF "fwd" \in K
+          THEN {P(0) \o P(0) \o P(0) \o P(0) \o (IF op \in {241, 242} THEN P(0) ELSE <<>>) \o P(t) \o P(60000) \o <<op>> \o a :
+                  op \in {241, 242, 244, 250}, t \in {194, 195} \cap AddrU, a \in {<<80>>, <<80>> \o P(0) \o P(0) \o <<253>>}}
+          ELSE {})
+    \cup (IF "fwd1" \in K
+          THEN {P(0) \o P(0) \o P(0) \o P(0) \o (IF op \in {241, 242} THEN P(0) ELSE <<>>) \o P(194) \o P(60000) \o <<op, 80>> : op \in {241, 242, 244}}
+          ELSE {})
+    \cup (IF "rev" \in K THEN {<<0>>, P(0) \o P(0) \o <<253>>, <<254>>} ELSE {})
+    \* cold/warm probes: one access instruction on one address or slot, result stored
+    \cup (IF "probe" \in K
+          THEN {P(a) \o <<x, 80>> : a \in {171, 172, Coinbase}, x \in {49, 59}}
+               \cup {P(k) \o <<84, 80>> : k \in {0, 1}} \cup {P(2) \o P(k) \o <<85>> : k \in {0, 1}}
+               \cup {P(0) \o P(0) \o P(0) \o P(0) \o P(0) \o P(a) \o P(0) \o <<241, 80>> : a \in {171, 172, Coinbase}}
+          ELSE {})
+    \cup (IF "sfwd" \in K THEN {P(0) \o P(0) \o P(0) \o P(0) \o P(194) \o P(200000) \o <<250, 80>>} ELSE {})
+    \cup (IF "fwd2" \in K
+          THEN {P(0) \o P(0) \o P(0) \o P(0) \o (IF op \in {241, 242} THEN P(0) ELSE <<>>) \o P(195) \o P(100000) \o <<op, 80>> :
+                  op \in {241, 242, 244, 250}}
+          ELSE {})
+    \cup (IF "call194" \in K THEN {P(0) \o P(0) \o P(0) \o P(0) \o P(0) \o P(194) \o P(60000) \o <<241, 80>>} ELSE {})
     \cup (IF "rdata" \in K
           THEN {<<61>> \o P(2) \o <<85>>, P(1) \o P(0) \o P(0) \o <<62>>, P(33) \o P(0) \o P(0) \o <<62>>} ELSE {})
     \cup (IF "create" \in K
@@ -657,26 +763,31 @@ SnipsOf(K) ==
 W0 == [a \in AddrU |-> IF a \in DOMAIN World0 THEN World0[a] ELSE Blank]
 Init ==
     m = [ph |-> "setup", nsnip |-> 0, world |-> W0, world0 |-> W0, orig |-> W0, created |-> <<>>,
-         txs |-> <<>>, res |-> <<>>, tx |-> [to |-> 0, value |-> 0, gas |-> 0, price |-> 0, data |-> <<>>, al |-> <<>>],
+         txs |-> <<>>, res |-> <<>>, tx |-> [to |-> 0, value |-> 0, gas |-> 0, price |-> 0, data |-> <<>>, al |-> <<>>, prio |-> -1],
          accA |-> {}, accS |-> {}, tst |-> [a \in AddrU |-> [k \in Slots |-> 0]], logs |-> <<>>, dest |-> {},
          touched |-> {}, ctx |-> {}, frames |-> <<>>, events |-> <<>>, txcreated |-> 0, cut |-> FALSE, steps |-> 0,
          burnt |-> 0]
 
-\* two steps, so that a random walk picks the snippet family uniformly and then a member of it
-PickKind == m.ph = "setup" /\ m.nsnip < MaxSnips /\ \E k \in SnipKinds : m' = [m EXCEPT !.ph = k]
+\* free setup: two steps, so that a random walk picks the snippet family uniformly and then a member
+PickKind == SetupPlan = <<>> /\ m.ph = "setup" /\ m.nsnip < MaxSnips /\ \E k \in SnipKinds : m' = [m EXCEPT !.ph = k]
 AddSnippet == m.ph \in SnipKinds /\ \E c \in Contracts, s \in SnipsOf({m.ph}) :
     m' = [m EXCEPT !.world[c].code = @ \o s, !.world0[c].code = @ \o s, !.nsnip = @ + 1, !.ph = "setup"]
+\* planned setup: the product of the plan's choices
+PlanStep == SetupPlan # <<>> /\ m.ph = "setup" /\ m.nsnip < Len(SetupPlan) /\
+    LET st == SetupPlan[m.nsnip + 1] IN
+    \E s \in SnipsOf(st.kinds) :
+        m' = [m EXCEPT !.world[st.c].code = @ \o s, !.world0[st.c].code = @ \o s, !.nsnip = @ + 1]
 
-EndSetup == m.ph = "setup" /\ m' = [m EXCEPT !.ph = "tx"]
+EndSetup == m.ph = "setup" /\ (SetupPlan = <<>> \/ m.nsnip = Len(SetupPlan)) /\ m' = [m EXCEPT !.ph = "tx"]
 
-TxData == {<<>>, <<0, 0, 0, 7>>, <<1>>}
+TxData == {<<>>, <<0, 0, 0, 7>>, <<1>>, [i \in 1..40 |-> 1]}
 TxInit == {Ret1, P(2) \o P(1) \o <<85>> \o Ret1, <<254>>}
 AccessLists == {<<>>} \cup (IF Has(BERLIN) THEN {<<[addr |-> c, keys |-> <<0>>]>> : c \in Contracts} ELSE {})
 ChooseTx == m.ph = "tx" /\ Len(m.res) < MaxTx /\
     \E to \in TxTargets, value \in (IF TxVariety THEN {0, 1} ELSE {0}), gas \in TxGas, price \in GasPrices,
-       al \in (IF TxVariety THEN AccessLists ELSE {<<>>}) :
+       al \in (IF TxVariety THEN AccessLists ELSE {<<>>}), prio \in (IF TxVariety /\ Has(LONDON) THEN {-1, 0, 2} ELSE {-1}) :
       \E data \in (IF to = 0 THEN TxInit ELSE IF TxVariety THEN TxData ELSE {<<>>}) :
-        LET tx == [to |-> to, value |-> value, gas |-> gas, price |-> price, data |-> data, al |-> al] IN
+        LET tx == [to |-> to, value |-> value, gas |-> gas, price |-> price, data |-> data, al |-> al, prio |-> prio] IN
         ValidTx(m, tx) /\ m' = StartTx(m, tx)
 
 Run == m.ph = "run" /\ m' = (IF m.steps >= StepBound THEN Cut(m) ELSE Step([m EXCEPT !.steps = @ + 1]))
@@ -686,7 +797,7 @@ Emit == PrintT("REPLAY " \o ToJson([fork |-> Fork, world0 |-> m.world0, txs |-> 
                                       sender |-> Sender, coinbase |-> Coinbase]))
 Finish == m.ph = "tx" /\ Len(m.res) >= 1 /\ ~m.cut /\ m' = [m EXCEPT !.ph = "done"] /\ Emit
 
-Next == PickKind \/ AddSnippet \/ EndSetup \/ ChooseTx \/ Run \/ Finish
+Next == PickKind \/ AddSnippet \/ PlanStep \/ EndSetup \/ ChooseTx \/ Run \/ Finish
 Spec == Init /\ [][Next]_vars
 View == m
 
